@@ -14,7 +14,7 @@ import (
 
 // C01: every pair of public methods of the eight lock-guarded containers on one shared
 // instance (DESIGN 7/C01), on the scratch copy with access probes.
-//   "disc": the lock and access events of a few schedules per pair -> LockDiscipline.tla
+//   "disc": the lock and access events of the schedules with at most 1 (thorough: 2) preemptions per pair -> HappensBefore.tla
 //   "safe": every interleaving of every pair -> no panic, no deadlock, usable afterwards
 //   "hand": memory handed back to the caller is not written by later calls
 
@@ -110,12 +110,14 @@ func racePrograms(name string, triples bool) []concProg {
 }
 
 // raceLog turns the scheduler's log of one execution into trace events, dropping repetitions of an
-// access by the same thread to the same cell in the same mode under the same locks.
+// access by the same thread to the same cell in the same mode between two of its lock operations
+// (the thread's clock only moves when it acquires or releases a lock).
 func raceLog(log []vsync.Event) []tt.Op {
 	var ev []tt.Op
 	held := map[int]map[int64]int{}
 	seen := map[string]bool{}
 	locks := map[int64]int{}
+	epoch := map[int]int{}
 	lid := func(m int64) int {
 		if v, ok := locks[m]; ok {
 			return v
@@ -134,9 +136,10 @@ func raceLog(log []vsync.Event) []tt.Op {
 			} else {
 				held[e.T][e.M]--
 			}
+			epoch[e.T]++
 			ev = append(ev, op(e.K, e.T, lid(e.M), b2i(e.W)))
 		case "acc":
-			k := fmt.Sprint(e.T, e.Cell, e.W, held[e.T])
+			k := fmt.Sprint(e.T, e.Cell, e.W, epoch[e.T])
 			if seen[k] {
 				continue
 			}
@@ -273,10 +276,12 @@ func init() {
 			if cfg.Shard < 0 {
 				return nil, fmt.Errorf("race owns the process-global scheduler: run one process per shard")
 			}
-			pb, nlog := 2, 4
+			// logged executions (happens-before needs the schedule in which a pair is NOT ordered: both orders of
+			// the calls and a switch at every unprotected access - preemption bound 1, thorough 2)
+			pb, pblog, nlog := 2, 1, 64
 			thorough := cfg.Tier == "thorough"
 			if thorough {
-				pb, nlog = 3, 24
+				pb, pblog, nlog = 3, 2, 600
 			}
 			disc, safe := tt.NewTrie(), tt.NewResTrie()
 			seen := map[string]bool{}
@@ -289,8 +294,8 @@ func init() {
 					}
 					progs++
 					var ferr error
-					// a few schedules with the lock/access log
-					vsync.ExploreWithLog(pb, nlog, func(run func([]func()) *vsync.Result) bool {
+					// the schedules with the lock/access log
+					vsync.ExploreWithLog(pblog, nlog, func(run func([]func()) *vsync.Result) bool {
 						ev, _, res, err := raceRun(p, true, run)
 						if err != nil {
 							ferr = err
